@@ -131,6 +131,26 @@ def refdeps_rule(ctx, c, fsu, rid="C19.refdeps"):
     ctx.inst(R, key, sites=len(ref_pushes), sample={"reference_dependency_pushes": ref_pushes, "guards": [sorted(map(str, G.guards_of(pb))) for pb in ref_pushes]})
     if len(ref_pushes) < 2:
         ctx.anchor_missing(R, "the two reference-dependency insertions (producer->borrower, borrower->consumers) in find_subgraph_unionfind")
+    # the borrower-before-consumers ordering applies to every kind of handoff: no test of the handoff's kind may decide whether it is inserted
+    for pb in ref_pushes:
+        for sb in range(fsu.n):
+            t = fsu.term(sb)
+            if t["k"] != "switch" or fsu.is_cleanup(sb) or not fsu.dominates(sb, pb) or sb == pb:
+                continue
+            tgts = [tg for _v, tg in t["ts"]] + [t["o"]]
+            live = [tg for tg in tgts if fsu.term(tg)["k"] != "unreachable"]
+            deciding = [tg for tg in live if pb in fsu.reachable(start=tg, avoid={sb})]
+            if len(deciding) == len(live):
+                continue          # every arm reaches the insertion: not a deciding test
+            d = op_place(t["d"])
+            src_ty = None
+            for st in fsu.stmts(sb):
+                if "lhs" in st and d is not None and pl_local(st["lhs"]) == pl_local(d) and st["rv"].get("k") == "discr":
+                    pp = st["rv"]["p"]
+                    src_ty = fsu.locals[pl_local(pp)] + "".join(x for x in (pp[1:] if not isinstance(pp, int) else []) if isinstance(x, str))
+            if src_ty and "kind" in src_ty and "Handoff" in src_ty or (src_ty and "HandoffKind" in src_ty):
+                ctx.violation(R, key + "|reference-dependency-by-handoff-kind", "the dependency created by a handoff reference is inserted only for some kinds of handoff (a test of the handoff's `kind` "
+                              "decides it): for the other kinds the handoff's consumers are no longer ordered after the borrower", fsu.loc(sb))
     for pb in ref_pushes:
         g = [x for x in G.guards_of(pb) if x[0] == "contains_key"]
         if g:
